@@ -1,7 +1,7 @@
 #!/bin/sh
 # Run once after a fresh restore, offline: warm the Go build caches (race
-# std for the default toolchain and for go1.26.8) and prove that the three
-# worker binaries and the driver build from files on disk.
+# std for the default toolchain and for go1.26.8) and prove that the
+# worker binaries (hook and auto-yield) and the driver build from files on disk.
 set -u
 here=$(cd "$(dirname "$0")" && pwd)
 export GOFLAGS=-mod=mod GOPROXY=off GOSUMDB=off GOTOOLCHAIN=local
@@ -15,5 +15,6 @@ go1.26.8 test -c -race -tags verif -o "$tmp/workerb.test" ./cmd/workerb || exit 
 go run ./cmd/instrument /repo "$tmp/repo-inst" >/dev/null || exit 2
 sed "s#=> /repo#=> $tmp/repo-inst#" go.mod > "$tmp/auto.mod" && cp go.sum "$tmp/auto.sum"
 go build -modfile="$tmp/auto.mod" -race -tags "verif autoyield" -o "$tmp/worker-race-auto" ./cmd/worker || exit 2
+go build -modfile="$tmp/auto.mod" -tags "verif autoyield" -o "$tmp/worker-auto" ./cmd/worker || exit 2
 go1.26.8 test -modfile="$tmp/auto.mod" -c -race -tags "verif autoyield" -o "$tmp/workerb-auto.test" ./cmd/workerb || exit 2
 echo "setup ok"
